@@ -252,42 +252,59 @@ def h_split(h, k, via):
 
 
 # --------------------------------------------------------------------------
-def h_interp_config(h, kind, fill_i):
-    """IsothermInterpolator hands interp1d exactly (x=pressure, y=loading, kind, fill); measured points; bounds"""
+def h_interp_config(h, kind, fill_i, branch='ads'):
+    """interpolated reads: measured points, straight line between neighbours, refusal / fill rule outside the range - on the
+    adsorption branch (increasing pressures) and on the desorption branch (stored in DEcreasing pressure order); where the
+    library builds a scipy interp1d, it is handed exactly (x=pressure, y=loading, kind, fill)"""
     fills = [None, 5.0, (1.0, 9.0), 'extrapolate']
     fill = fills[fill_i]
     env = c02.Env(h, k=3)
     iso = env.make(dict(BASE_S))
-    iso.data_raw['branch'] = [0, 0, 0]
+    dp, dn = list(env.dp), list(env.dn)
+    if branch == 'des':
+        # a desorption run: same points, measured from high to low pressure
+        iso.data_raw[iso.pressure_key] = isofix.column(h, dp[::-1])
+        iso.data_raw[iso.loading_key] = isofix.column(h, dn[::-1])
+        iso.data_raw['branch'] = [1, 1, 1]
+    else:
+        iso.data_raw['branch'] = [0, 0, 0]
+    kw = dict(interpolation_type=kind, interp_fill=fill, branch=branch)
     with isofix.interp_patch(h):
-        a0, e0 = _try(lambda: iso.loading_at(env.dp[1], interpolation_type=kind, interp_fill=fill))
-        rec = isofix.FakeInterp1d.instances[-1]
-        cid = f'C03/interp/{kind}/fill={fill}'
-        h.claim(f'{cid}/x==pressure,y==loading', _all_close(h, rec['x'], env.dp, 0) & _all_close(h, rec['y'], env.dn, 0))
-        h.claim(f'{cid}/kind-passed', rec['kind'] == kind)
-        if fill is None:
-            h.claim(f'{cid}/bounds-error-kept', rec['bounds_error'] in (None, True))
-        else:
-            h.claim(f'{cid}/fill-passed', rec['bounds_error'] is False and rec['fill_value'] == fill)
-        h.claim(f'{cid}/measured-point', e0 is None and _all_close(h, a0, [env.dn[1]], 1e-12), info=repr(e0))
+        n_before = len(isofix.FakeInterp1d.instances)
+        a0, e0 = _try(lambda: iso.loading_at(dp[1], **kw))
+        cid = f'C03/interp/{kind}/fill={fill}' + ('' if branch == 'ads' else '/des')
+        if len(isofix.FakeInterp1d.instances) > n_before:
+            rec = isofix.FakeInterp1d.instances[-1]
+            # (the recorder may hold the nodes as given or sorted, like scipy: the pairs are what matters)
+            h.claim(f'{cid}/x==pressure,y==loading', (_all_close(h, rec['x'], dp, 0) & _all_close(h, rec['y'], dn, 0))
+                    | (_all_close(h, rec['x'], dp[::-1], 0) & _all_close(h, rec['y'], dn[::-1], 0)))
+            h.claim(f'{cid}/kind-passed', rec['kind'] == kind)
+            if fill is None:
+                h.claim(f'{cid}/bounds-error-kept', rec['bounds_error'] in (None, True))
+            else:
+                h.claim(f'{cid}/fill-passed', rec['bounds_error'] is False and rec['fill_value'] == fill)
+        h.claim(f'{cid}/measured-point', e0 is None and _all_close(h, a0, [dn[1]], 1e-12), info=repr(e0))
         if kind == 'linear':
             q = h.real('q', pos=True)
-            h.assume((q > env.dp[0]) & (q < env.dp[1]))
-            got, e = _try(lambda: iso.loading_at(q, interpolation_type=kind, interp_fill=fill))
-            want = env.dn[0] + (env.dn[1] - env.dn[0]) * (q - env.dp[0]) / (env.dp[1] - env.dp[0])
-            h.claim(f'{cid}/straight-line-between-neighbours', e is None and _all_close(h, got, [want], 1e-12))
+            h.assume((q > dp[0]) & (q < dp[1]))
+            got, e = _try(lambda: iso.loading_at(q, **kw))
+            want = dn[0] + (dn[1] - dn[0]) * (q - dp[0]) / (dp[1] - dp[0])
+            h.claim(f'{cid}/straight-line-between-neighbours', e is None and _all_close(h, got, [want], 1e-12), info=repr(e))
         out = h.real('q_out', pos=True)
-        h.assume(out > env.dp[2])
-        got, e = _try(lambda: iso.loading_at(out, interpolation_type=kind, interp_fill=fill))
+        h.assume(out > dp[2])
+        got, e = _try(lambda: iso.loading_at(out, **kw))
         if fill is None:
             h.claim(f'{cid}/refused-outside-range', e is not None)
         else:
             h.claim(f'{cid}/fill-rule-outside-range', e is None, info=repr(e))
         # same for pressure_at (x = loading, y = pressure)
-        b0, e1 = _try(lambda: iso.pressure_at(env.dn[1], interpolation_type=kind, interp_fill=fill))
-        rec = isofix.FakeInterp1d.instances[-1]
-        h.claim(f'{cid}/pressure_at:x==loading,y==pressure', _all_close(h, rec['x'], env.dn, 0) & _all_close(h, rec['y'], env.dp, 0))
-        h.claim(f'{cid}/pressure_at-measured-point', e1 is None and _all_close(h, b0, [env.dp[1]], 1e-12))
+        n_before = len(isofix.FakeInterp1d.instances)
+        b0, e1 = _try(lambda: iso.pressure_at(dn[1], **kw))
+        if len(isofix.FakeInterp1d.instances) > n_before:
+            rec = isofix.FakeInterp1d.instances[-1]
+            h.claim(f'{cid}/pressure_at:x==loading,y==pressure', (_all_close(h, rec['x'], dn, 0) & _all_close(h, rec['y'], dp, 0))
+                    | (_all_close(h, rec['x'], dn[::-1], 0) & _all_close(h, rec['y'], dp[::-1], 0)))
+        h.claim(f'{cid}/pressure_at-measured-point', e1 is None and _all_close(h, b0, [dp[1]], 1e-12), info=repr(e1))
 
 
 def h_cache_sequence(h, seq_i):
@@ -424,6 +441,8 @@ def obligations(tier):
     for kind in ('linear', 'nearest', 'quadratic') if tier == 'quick' else ('linear', 'nearest', 'zero', 'slinear', 'quadratic'):
         for fi in range(4):
             obs.append(Obligation(f'C03/interp/{kind}/{fi}', h_interp_config, (kind, fi), bounds='k=3', **kw))
+            if kind == 'linear':
+                obs.append(Obligation(f'C03/interp/{kind}/{fi}/des', h_interp_config, (kind, fi, 'des'), bounds='k=3; desorption branch stored high to low', **kw))
     for i in range(5):
         obs.append(Obligation(f'C03/cache-sequence/{i}', h_cache_sequence, (i,), bounds='k=3; two reads', **kw))
     # H. model isotherms
